@@ -111,6 +111,13 @@ def checkWmcLine (kvs : List (String × String)) (rhs : String) : String := Id.r
   let specCr := wsum Sem.realOps vars wrW d.eval a0
   if cr != specCr then return s!"FAIL SPEC real count {showRat cr}, brute-force {showRat specCr}"
   if cr != Bdd.wmc Sem.realOps wrW d then return "FAIL MODEL real count"
+  -- `assignment_weight`: the product of the chosen literal weights
+  match ((lookup okv "aw").getD "").splitOn ":" with
+  | [bits, w] =>
+    let asg := assignOfNat (bits.toNat?.getD 0)
+    let want := assignWeight Sem.realOps wrW asg vars
+    if parseRat? w != some want then return s!"FAIL SPEC assignment_weight = {w}, product of the chosen literal weights {showRat want}"
+  | _ => return "FAIL PARSE aw"
   -- complex weights in quarters, low + high = 1 (mixed real / non-real)
   let wcS := ((lookup kvs "wc").getD "").splitOn ","
   let wcW : Weights Sem.Cx := fun v =>
